@@ -32,12 +32,35 @@ def renderer(dialect):
     return SqlalchemyRender(dialect)
 
 
+def norm_ws(text):
+    """collapse white space outside quoted literals / identifiers (inside them it is data)"""
+    out, q, prev_space = [], None, False
+    for ch in text:
+        if q:
+            out.append(ch)
+            if ch == q:
+                q = None
+            continue
+        if ch in ("'", '"', '`'):
+            q = ch
+            out.append(ch)
+            prev_space = False
+        elif ch.isspace():
+            if not prev_space:
+                out.append(' ')
+            prev_space = True
+        else:
+            out.append(ch)
+            prev_space = False
+    return ''.join(out).strip()
+
+
 def render(R, ast):
     """rendered text or ('!', exception class)"""
     try:
         with warnings.catch_warnings():
             warnings.simplefilter('ignore')
-            return re.sub(r'\s+', ' ', R.get_string(ast, with_failback=False)).strip()
+            return norm_ws(R.get_string(ast, with_failback=False))
     except Exception as e:
         return ('!', type(e).__name__ + ': ' + str(e)[:100])
 
@@ -419,7 +442,7 @@ class Prober:
                 # the renderer raised: get_string's default fallback returns the AST printer's text; it must mean the same
                 self.stats['render-raises'] += 1
                 try:
-                    rend = re.sub(r'\s+', ' ', self.R[d].get_string(ast)).strip()
+                    rend = norm_ws(self.R[d].get_string(ast))
                     fallback = True
                 except Exception:
                     continue
@@ -654,10 +677,19 @@ def run(chk):
         if ast is None:
             pdist['unparsed:' + pd] += 1
             continue
+        if c.get('strs'):
+            # the parser must have decoded every literal to the value it denotes in SQL, otherwise the difference is a
+            # lexer/parser matter (C04), not a rendering one
+            got = sorted({n.value for n in ast_nodes(ast) if isinstance(n, A.Constant) and isinstance(n.value, str)})
+            if not set(c['strs']) <= set(got) or not set(got) <= set(c['strs']) | {'x', '1', '%', '_', '1%', ''}:
+                pdist['parser-literal-mismatch(C04)'] += 1
+                continue
         for ft in c['feats']:
             pdist['feat:' + ft.split(':')[0]] += 1
         pdist['stmt:' + c['kind']] += 1
-        P.check(c, ast, ('sqlite', 'mysql', 'postgres') if i % 3 == 0 else ('sqlite',))
+        # backslashes in literals mean something else to MySQL (C07): their mysql / postgres renderings are not judged here
+        multi = i % 3 == 0 and not any('\\' in v for v in c.get('strs', ()))
+        P.check(c, ast, ('sqlite', 'mysql', 'postgres') if multi else ('sqlite',))
     for db in dbs:
         db.close()
     chk.notes.append(dict(probe=dict(P.stats), generated=dict(pdist)))
@@ -698,7 +730,7 @@ def replay(path):
         ast = parse(f['text'])
     rend = render(renderer(f.get('dialect', 'sqlite')), ast)
     if not isinstance(rend, str):
-        rend = re.sub(r'\s+', ' ', renderer(f.get('dialect', 'sqlite')).get_string(ast)).strip()
+        rend = norm_ws(renderer(f.get('dialect', 'sqlite')).get_string(ast))
     if isinstance(rend, str) and f.get('dialect', 'sqlite') != 'sqlite':
         rend = rend.replace('`', '"')
     content = {k: tuple(tuple(r) for r in v) for k, v in f['db'].items()}
